@@ -244,6 +244,9 @@ def run(chk: Check, ctx: Any) -> None:
         "(R1) opcode and parameter order of the condition/assignment forms are decided by C02/C03 rules that share the emission-site table "
         "(parameter counts vs. the jump index table) and by the layout skeletons (Branch/Switch/Case parameters are part of the observable labels). "
         "Not decided: skeletons beyond the bounds, values, macro expansion (C05)."
+        " (R1/R2, interpreter-based) The compiler's visitors, handlers and post-passes are evaluated from their syntax trees on the grammar's parse tree of 169"
+        " syntactic forms and of an exhaustive bounded family of schematic programs; compiled flow graphs are compared with the specified ones by bisimulation,"
+        " i.e. for every outcome of every test. These rules decide the enumerated shapes, not all programs."
     )
     chk.rule("C01-R2", "for every skeleton: abstractly compiled op lists (after strip_last_label, LabelFinalizer, OpsLabelJumpToRemover) are bisimilar to the specified flow graph; "
                        "specification-rejected skeletons are rejected by the compiler")
